@@ -904,6 +904,10 @@ impl<K: CacheKey + 'static> AsyncCache<K> for MultiLayerCacheImpl<K> {
                 return Ok(true);
             }
         }
+        // A put that ran meanwhile moves the key up to the first layer (see get)
+        if self.layers.len() > 1 {
+            return self.layers[0].contains(key).await;
+        }
         Ok(false)
     }
 
